@@ -102,7 +102,7 @@ def build(ctx):
                 al = [a for a in al if not a[0].startswith(("gbytes", "msize", "csize")) and not a[0].endswith(("_g2", "_d2", "_g2_z"))]
             for a in al:
                 hs.append(P.Harness("%s_%s_%s_cxx%s" % (sch.ns, mname, a[0], std), harness(u, g, a, nmax, E, D), [u], unwind=G + 2, track=True,
-                                    cap=ctx.q(300, 900), backends=["minisat", "kissat"], meta={"big_loops": ["ref_walk_%s.%d" % (mname, x) for x in range(16)]},
+                                    cap=ctx.q(600, 1200), backends=["minisat", "kissat"], meta={"big_loops": ["ref_walk_%s.%d" % (mname, x) for x in range(16)]},
                                     desc="%s.%s: %s on a view bound to malloc(n), every n in 0..%d: handler invoked or no out-of-bounds access; no spurious handler when the image fits" % (sch.ns, mname, a[0], nmax),
                                     bounds={"NMAX": nmax, "G": G, "D": D, "E": E, "std": "c++" + std}))
     sch, inc = sch1, inc1
@@ -124,7 +124,7 @@ def build(ctx):
   %(call)s
   VASSERT(verif_aborted || !verif_oob, "hostile group header: if the assertion handler is not invoked, no byte at or beyond p+n was accessed");
 """ % {"obl": gg.hdr["blockLength"][0], "call": call}
-        hs.append(P.Harness("%s_grp_hostile_header_%s_cxx17" % (sch.ns, label), hgen.harness([ug], body), [ug], unwind=4, track=True, cap=ctx.q(300, 900), backends=["minisat", "kissat", "z3"],
+        hs.append(P.Harness("%s_grp_hostile_header_%s_cxx17" % (sch.ns, label), hgen.harness([ug], body), [ug], unwind=4, track=True, cap=ctx.q(600, 1200), backends=["minisat", "kissat", "z3"],
                             desc="%s.grp: %s with the group's wire blockLength and numInGroup ANY uint16 values, any valid entry index, view bound to malloc(n), n in 0..28" % (sch.ns, label),
                             bounds={"NMAX": 28, "blockLength": "0..65535", "numInGroup": "0..65535", "index": "< numInGroup", "std": "c++17"}))
     # hostile / extreme <data> length: a length prefix at the top of its (uint8) type with a view shorter than the message
@@ -144,7 +144,7 @@ def build(ctx):
   VASSERT(verif_aborted || !verif_oob, "if the assertion handler is not invoked, no byte at or beyond p+n was accessed (length prefix at the top of its type included)");
   if (n >= 15 + (u64)img[14] && %(nospur)s) VASSERT(!verif_aborted, "with the whole <data> inside the buffer the handler is never invoked");
 """ % {"obl": g.hdr["blockLength"][0], "call": call, "nospur": "0" if label == "dresize_da" else "1"}
-        hs.append(P.Harness("%s_odd_bigdata_%s_cxx17" % (sch.ns, label), hgen.harness([u], body), [u], unwind=4, track=True, cap=ctx.q(300, 900), backends=["minisat", "kissat"],
+        hs.append(P.Harness("%s_odd_bigdata_%s_cxx17" % (sch.ns, label), hgen.harness([u], body), [u], unwind=4, track=True, cap=ctx.q(600, 1200), backends=["minisat", "kissat"],
                             desc="%s.odd: %s with the <data> length prefix anywhere in 0..255 (incl. the uint8 maximum) on a view bound to malloc(n), n in 0..24" % (sch.ns, label),
                             bounds={"NMAX": 24, "length": "0..255", "std": "c++17"}))
     # hostile <data> length of a 64-bit length type: sizeof(length) + length wraps in size_t, the size check must still refuse it
@@ -166,7 +166,7 @@ def build(ctx):
   %(call)s
   VASSERT(verif_aborted || !verif_oob, "if the assertion handler is not invoked, no byte at or beyond p+n was accessed (length prefix anywhere in its type: sizeof(length) + length must not wrap past the size check)");
 """ % {"obl": g.hdr["blockLength"][0], "call": call, "lsz": lsz, "bits": 8 * lsz}
-            hs.append(P.Harness("%s_%s_widelen_%s_cxx17" % (schd.ns, mname, label), hgen.harness([u], body), [u], unwind=4, track=True, cap=ctx.q(300, 900), backends=["minisat", "kissat"],
+            hs.append(P.Harness("%s_%s_widelen_%s_cxx17" % (schd.ns, mname, label), hgen.harness([u], body), [u], unwind=4, track=True, cap=ctx.q(600, 1200), backends=["minisat", "kissat"],
                                 desc="%s.%s: %s with the <data> length prefix anywhere in its %d-bit type on a view bound to malloc(n), n in 0..28" % (schd.ns, mname, label, 8 * lsz),
                                 bounds={"NMAX": 28, "length": "full range of the length type", "std": "c++17"}))
     return hs
